@@ -34,6 +34,7 @@ type verifCacheOp struct {
 	Dbf  bool    `json:"dbf"`
 	Dbf2 bool    `json:"dbf2"`
 	Flip bool    `json:"flip"`
+	Cut  int     `json:"cut"`
 	D    int     `json:"d"`
 	E    int     `json:"e"`
 	Ks   []int   `json:"ks"`
@@ -55,6 +56,8 @@ type verifCacheNodeH struct {
 	traces int
 	kfOK   bool         // this history may read what a failed invalidation left behind (the known finding)
 	dirty  map[int]bool // keys invalidated while the store was down
+	clus   bool         // the next history runs on a cluster-type redis client (per-key DEL, per-key retry tasks)
+	cut    int          // > 0: during the next take / write the store goes down at its cut-th command
 }
 
 // verifCacheMsg: the error text, for the reader of a rejected trace only (the specification ignores it)
@@ -104,7 +107,8 @@ func (h *verifCacheNodeH) begin(np, expDs, nfDs int) {
 	h.expDs, h.nfDs = e, nf
 	h.db = make(map[int]*VerifCacheRow)
 	h.dirty = make(map[int]bool)
-	h.ver = 0
+	h.ver, h.cut = 0, 0
+	h.w.UseCluster(h.clus)
 	h.w.Begin(np, 0, e, nf, h.kfOK)
 	h.c = NewNode(h.w.R, syncx.NewSingleFlight(), h.st, verifCacheErrNF, opts...)
 	h.traces++
@@ -130,11 +134,17 @@ func (h *verifCacheNodeH) settle(k int) {
 }
 
 func (h *verifCacheNodeH) take(k int, dbf, flip bool, api int) {
+	arm := h.cut
+	h.cut = 0
 	h.settle(k)
 	nq, flipped := 0, false
+	if arm > 0 && !flip {
+		h.w.ArmCut(arm)
+	}
 	var row VerifCacheRow
 	q := func(v any) error {
 		nq++
+		h.w.NoteQuery()
 		if flip {
 			h.w.Flip(!h.w.Down)
 			flipped = true
@@ -161,12 +171,13 @@ func (h *verifCacheNodeH) take(k int, dbf, flip bool, api int) {
 	default:
 		err = h.c.TakeWithExpireCtx(context.Background(), &row, h.w.Key(k), qe)
 	}
+	cut, qa := h.w.EndCut()
 	r, v := verifCacheClass(err), 0
 	if err == nil {
 		v = row.Ver
 	}
 	h.w.Ev(map[string]any{"e": "take", "k": k, "r": r, "v": v, "nq": nq, "dbf": dbf, "flip": flipped, "api": api % 4,
-		"msg": verifCacheMsg(err)})
+		"cut": cut, "qa": qa, "msg": verifCacheMsg(err)})
 }
 
 func (h *verifCacheNodeH) get(k int) {
@@ -194,6 +205,10 @@ func (h *verifCacheNodeH) set(k, v, eDs int) {
 	row := VerifCacheRow{Id: k, Name: -1, Ver: v}
 	var err error
 	used := h.expDs
+	if arm := h.cut; arm > 0 {
+		h.cut = 0
+		h.w.ArmCut(arm)
+	}
 	switch {
 	case eDs > 0:
 		used = eDs
@@ -205,15 +220,18 @@ func (h *verifCacheNodeH) set(k, v, eDs int) {
 	default:
 		err = h.c.Set(h.w.Key(k), row)
 	}
+	cut, _ := h.w.EndCut()
 	if err == nil {
 		delete(h.dirty, k)
 	}
-	h.w.Ev(map[string]any{"e": "set", "k": k, "v": v, "x": used, "r": verifCacheClass(err)})
+	h.w.Ev(map[string]any{"e": "set", "k": k, "v": v, "x": used, "r": verifCacheClass(err), "cut": cut})
 }
 
 // write changes the harness database and invalidates ks the way sqlc.Exec does (Del after the write).
 func (h *verifCacheNodeH) write(upd [][]int, ks []int, dbf bool) {
-	r := "dberr"
+	r, cut := "dberr", 0
+	arm := h.cut
+	h.cut = 0
 	if !dbf {
 		for _, u := range upd {
 			if u[1] < 0 {
@@ -222,12 +240,16 @@ func (h *verifCacheNodeH) write(upd [][]int, ks []int, dbf bool) {
 				h.db[u[0]] = &VerifCacheRow{Id: u[0], Name: -1, Ver: u[1]}
 			}
 		}
+		if arm > 0 {
+			h.w.ArmCut(arm)
+		}
 		var err error
 		if len(ks)%2 == 1 {
 			err = h.c.Del(h.w.Keys(ks)...)
 		} else {
 			err = h.c.DelCtx(context.Background(), h.w.Keys(ks)...)
 		}
+		cut, _ = h.w.EndCut()
 		for _, k := range ks {
 			if h.w.Down {
 				h.w.Owed = true
@@ -241,10 +263,14 @@ func (h *verifCacheNodeH) write(upd [][]int, ks []int, dbf bool) {
 	if upd == nil {
 		upd = [][]int{}
 	}
-	h.w.Ev(map[string]any{"e": "write", "upd": upd, "ks": ks, "dbf": dbf, "r": r})
+	h.w.Ev(map[string]any{"e": "write", "upd": upd, "ks": ks, "dbf": dbf, "r": r, "cut": cut})
 }
 
 func (h *verifCacheNodeH) do(op verifCacheOp, api int) {
+	h.cut = 0
+	if op.Op == "take" || op.Op == "write" || op.Op == "set" {
+		h.cut = op.Cut
+	}
 	switch op.Op {
 	case "take":
 		h.take(op.K, op.Dbf, op.Flip, api)
@@ -318,6 +344,9 @@ func (h *verifCacheNodeH) pickAdvance() int {
 
 func (h *verifCacheNodeH) randomOp(np int) {
 	k := h.rnd.Intn(np)
+	if !h.w.Down && h.rnd.Intn(12) == 0 { // an outage that begins at a command boundary inside the next read / write
+		h.cut = 1 + h.rnd.Intn(4)
+	}
 	switch x := h.rnd.Intn(100); {
 	case x < 36:
 		h.take(k, h.rnd.Intn(9) == 0, h.rnd.Intn(14) == 0, h.rnd.Intn(4))
@@ -375,13 +404,18 @@ func (h *verifCacheNodeH) randomOp(np int) {
 			h.w.AdvanceUntilCleaner(1 + h.rnd.Intn(70))
 		}
 	}
+	h.cut = 0
 }
 
 // retryScenarios: failed invalidations (several keys at once; an outage that outlasts the first retries)
 // followed by a store that stays up for the cleaner's whole schedule. No stale entry is read.
+// On a node-type and on a cluster-type client (one DEL and one retry task per key).
 func (h *verifCacheNodeH) retryScenarios() {
 	h.kfOK = false
-	for sc := 0; sc < 3; sc++ {
+	defer func() { h.clus = false }()
+	for sc := 0; sc < 6; sc++ {
+		h.clus = sc >= 3
+		sc := sc % 3
 		cfg := verifCacheConfigs[[]int{6, 6, 3}[sc]]
 		h.begin(3, cfg[0], cfg[1])
 		h.write([][]int{{0, 1}, {1, 2}, {2, 3}}, []int{0, 1, 2}, false)
@@ -419,7 +453,9 @@ func TestVerifCacheNodeRandom(t *testing.T) {
 		cfg := verifCacheConfigs[h.rnd.Intn(len(verifCacheConfigs))]
 		np := 1 + h.rnd.Intn(3)
 		h.kfOK = i < verifEnvInt("VERIF_CACHE_KFHIST", 0)
+		h.clus = h.rnd.Intn(3) == 0
 		h.begin(np, cfg[0], cfg[1])
+		h.clus = false
 		for j := 0; j < length; j++ {
 			h.randomOp(np)
 			if h.w.Down && h.rnd.Intn(4) == 0 {
@@ -435,6 +471,9 @@ func TestVerifCacheNodeRandom(t *testing.T) {
 				}
 			}
 		case 3: // the store goes away for good
+			if h.w.Cluster { // (a cluster-type client spends seconds of real time re-discovering a dead topology)
+				break
+			}
 			h.w.Kill()
 			for j := 0; j < 4; j++ {
 				k := h.rnd.Intn(np)
@@ -599,6 +638,164 @@ func TestVerifCacheNodeConc(t *testing.T) {
 				h.w.Fault(false)
 			}
 			h.take(k, false, false, ph)
+		}
+	}
+}
+
+// TestVerifCacheNodeCuts: the fault placed at every command boundary of every kind of operation - a read of a
+// cached / uncached / absent row, an invalidation of one and of several keys - on a node-type and on a
+// cluster-type client, followed by the store coming back, the cleaner's whole schedule and fresh reads.
+func TestVerifCacheNodeCuts(t *testing.T) {
+	h := verifCacheNodeSetup(t)
+	defer func() { h.clus = false }()
+	for typ := 0; typ < 2; typ++ {
+		for cut := 1; cut <= 4; cut++ {
+			for sc := 0; sc < 4; sc++ {
+				h.clus = typ == 1
+				cfg := verifCacheConfigs[[]int{6, 3, 0}[(cut+sc)%3]]
+				h.begin(3, cfg[0], cfg[1])
+				h.write([][]int{{0, 1}, {1, 2}}, []int{0, 1, 2}, false) // rows 0 and 1 exist, row 2 does not
+				switch sc {
+				case 0: // reads of uncached keys: a row, an absent row
+					h.cut = cut
+					h.take(0, false, false, cut)
+					h.w.Fault(false)
+					h.cut = cut
+					h.take(2, false, false, cut+1)
+					h.w.Fault(false)
+					h.cut = cut
+					h.set(1, 2, []int{0, 25}[cut%2]) // an explicit write of what the database holds
+				case 1: // reads of cached keys
+					h.take(0, false, false, cut)
+					h.take(2, false, false, cut)
+					h.cut = cut
+					h.take(0, false, false, cut+1)
+					h.w.Fault(false)
+					h.cut = cut
+					h.take(2, false, false, cut+2)
+				case 2: // an invalidation naming three cached keys
+					for k := 0; k < 3; k++ {
+						h.take(k, false, false, k)
+					}
+					h.cut = cut
+					h.write([][]int{{0, 3}, {1, 4}, {2, 5}}, []int{0, 1, 2}, false)
+				default: // ... two, of which one has no entry; and a single one
+					h.take(1, false, false, cut)
+					h.cut = cut
+					h.write([][]int{{0, -1}, {1, 3}}, []int{0, 1}, false)
+					h.w.Fault(false)
+					h.take(2, false, false, cut)
+					h.cut = cut
+					h.write([][]int{{2, 4}}, []int{2}, false)
+				}
+				h.w.Fault(false)
+				h.w.Drain()
+				for k := 0; k < 3; k++ {
+					h.take(k, false, false, k+sc)
+				}
+			}
+		}
+	}
+}
+
+// flow runs n concurrent callers; each makes m calls, one after the other, on keys drawn from 0..np-1.
+// Every query function waits for the driver. plan[i]: the i-th query of the flow fails.
+func (h *verifCacheNodeH) flow(np, n, m int, plan []bool) {
+	entered := make(chan struct{}, n*m)
+	gate := make(chan struct{})
+	done := make(chan struct{}, n)
+	var nth int64
+	for g := 0; g < n; g++ {
+		keys := make([]int, m)
+		for j := range keys {
+			keys[j] = h.rnd.Intn(np)
+		}
+		g := g
+		go func() {
+			for j, k := range keys {
+				id := int(atomic.AddInt64(&h.calls, 1))
+				k := k
+				var row VerifCacheRow
+				q := func(v any) error {
+					qid := int(atomic.AddInt64(&h.qs, 1))
+					h.w.Raw(map[string]any{"e": "qstart", "q": qid, "k": k, "id": id})
+					entered <- struct{}{}
+					<-gate
+					i := int(atomic.AddInt64(&nth, 1)) - 1
+					dbf := i < len(plan) && plan[i]
+					var err error
+					if dbf {
+						err = verifCacheErrDb
+					} else if r, ok := h.db[k]; ok {
+						*v.(*VerifCacheRow) = *r
+					} else {
+						err = verifCacheErrNF
+					}
+					h.w.Raw(map[string]any{"e": "qend", "q": qid, "k": k, "dbf": dbf})
+					return err
+				}
+				h.w.Raw(map[string]any{"e": "rstart", "id": id, "k": k})
+				var err error
+				if (g+j)%2 == 0 {
+					err = h.c.Take(&row, h.w.Key(k), q)
+				} else {
+					err = h.c.TakeWithExpire(&row, h.w.Key(k), func(v any, _ time.Duration) error { return q(v) })
+				}
+				r, v := verifCacheClass(err), 0
+				if err == nil {
+					v = row.Ver
+				}
+				h.w.Raw(map[string]any{"e": "rend", "id": id, "r": r, "v": v})
+			}
+			done <- struct{}{}
+		}()
+	}
+	for left := n; left > 0; {
+		select {
+		case <-entered:
+			// give the other callers the chance to join the load - or to start their own
+			for i := 0; i < 30; i++ {
+				runtime.Gosched()
+			}
+			time.Sleep(time.Duration(50+h.rnd.Intn(400)) * time.Microsecond)
+			gate <- struct{}{}
+		case <-done:
+			left--
+		}
+	}
+	h.w.Ev(map[string]any{"e": "obs"})
+}
+
+// TestVerifCacheNodeFlow: concurrent callers that read several keys one after the other through one barrier
+// (successive loads of one key, loads of different keys side by side, a caller that starts its next read while
+// the callers that shared its previous load are still waking up), on 1, 2 and all processors.
+func TestVerifCacheNodeFlow(t *testing.T) {
+	h := verifCacheNodeSetup(t)
+	rounds := verifEnvInt("VERIF_CACHE_FLOWS", 12)
+	procs := runtime.GOMAXPROCS(0)
+	defer runtime.GOMAXPROCS(procs)
+	for i := 0; i < rounds; i++ {
+		cfg := verifCacheConfigs[h.rnd.Intn(4)]
+		np := 2 + h.rnd.Intn(2)
+		h.begin(np, cfg[0], cfg[1])
+		runtime.GOMAXPROCS([]int{1, 2, procs}[i%3])
+		for ph := 0; ph < 2+h.rnd.Intn(2); ph++ {
+			// some rows exist, some do not; everything uncached again
+			for k := 0; k < np; k++ {
+				if _, ok := h.db[k]; ok && h.rnd.Intn(3) == 0 {
+					h.write([][]int{{k, -1}}, []int{k}, false)
+				} else if h.rnd.Intn(4) > 0 {
+					h.ver++
+					h.write([][]int{{k, h.ver}}, []int{k}, false)
+				} else {
+					h.write(nil, []int{k}, false)
+				}
+			}
+			plan := []bool{h.rnd.Intn(4) == 0, h.rnd.Intn(4) == 0, h.rnd.Intn(4) == 0, false}
+			h.flow(np, 3+h.rnd.Intn(verifEnvInt("VERIF_CACHE_G", 5)), 2+h.rnd.Intn(3), plan)
+			for k := 0; k < np; k++ {
+				h.take(k, false, false, ph+k)
+			}
 		}
 	}
 }
